@@ -776,7 +776,11 @@ type pgen struct {
 	r  *Rng
 	st []string
 	ix map[string]int
+	dg int64 // date granularity of the block (ms per unit)
 }
+
+// a timestamp in units of the block's date granularity
+func (g *pgen) ts() int64 { return (1200000000000 + g.r.I64n(500000000000)) / g.dg }
 
 func (g *pgen) sid(s string) int64 {
 	if i, ok := g.ix[s]; ok {
@@ -802,7 +806,7 @@ func (g *pgen) info() *PInfo {
 		i.Ver = g.p64(int64(1 + r.Intn(40)))
 	}
 	if r.Chance(75) {
-		i.TS = g.p64(1200000000 + r.I64n(500000000))
+		i.TS = g.p64(g.ts())
 	}
 	if r.Chance(75) {
 		i.CS = g.p64(1 + r.I64n(90000000))
@@ -885,7 +889,7 @@ func (g *pgen) dense(maxN int) *PDense {
 			return abs
 		}
 		d.Ver = col(75, func(int) int64 { return int64(1 + r.Intn(40)) }, false)
-		d.TS = col(75, func(int) int64 { return 1200000000 + r.I64n(500000000) }, true)
+		d.TS = col(75, func(int) int64 { return g.ts() }, true)
 		d.CS = col(75, func(int) int64 { return 1 + r.I64n(90000000) }, true)
 		d.UID = col(75, func(int) int64 { return int64(r.Intn(900000)) }, true)
 		d.SID = col(75, func(int) int64 { return g.sid(g.str()) }, true)
@@ -971,7 +975,7 @@ func genPFile(r *Rng, maxBlocks, maxN int) *PFile {
 	}
 	nb := r.Intn(maxBlocks + 1)
 	for b := 0; b < nb; b++ {
-		g := &pgen{r: r, st: []string{""}, ix: map[string]int{"": 0}}
+		g := &pgen{r: r, st: []string{""}, ix: map[string]int{"": 0}, dg: 1000}
 		bl := PBlock{Zlib: r.Chance(60), Lay: r.Intn(16)}
 		pick := func(vals []int64) *int64 {
 			i := r.Intn(len(vals) + 1)
@@ -982,6 +986,9 @@ func genPFile(r *Rng, maxBlocks, maxN int) *PFile {
 		}
 		bl.Gran = pick([]int64{100, 1, 1000, 7, 100})
 		bl.DateGran = pick([]int64{1000, 1, 60000, 1000})
+		if bl.DateGran != nil {
+			g.dg = *bl.DateGran
+		}
 		bl.LatOff = pick([]int64{0, 500000000, -1234567})
 		bl.LonOff = pick([]int64{0, -250000000, 98765})
 		for k := r.Intn(4); k > 0; k-- {
